@@ -22,6 +22,7 @@ F = fractions.Fraction
 import random as _random
 _r = _random.Random(7)
 HARD = [(F(-79021, 8188), F(-210157, 8795)), (F(7, 2), F(772, 31)), (F(777197), F(1034)), (F(2**53 + 1), F(3)), (F(-7, 2), F(1)), (F(5), F(-3, 2)), (F(3, 2), F(0)), (F(0), F(0)), (F(-1), F(3)), (F(1, 2), F(-1))]
+HARD += [(F(1), F(1, 9973 * 9941 * 9929)), (F(7, 3), F(-1, 10**12 + 39)), (F(100003, 9973), F(1)), (F(-100003, 9973), F(7, 2)), (F(10**15 + 1, 7), F(3, 10**11 + 3)), (F(5), F(1, 10**11)), (F(-4), F(1, 3)), (F(22, 7), F(-22, 7))]
 HARD += [(F(_r.randint(-10**6, 10**6), _r.randint(1, 10**4)), F(_r.randint(-10**6, 10**6), _r.randint(1, 10**4))) for _i in range(150)]
 
 
@@ -278,6 +279,20 @@ def main():
                     bad, why = True, "%s(%s %s, %s %s) raised %s" % (fname, ta, ca, tb, cb, type(e).__name__)
                 if bad and len([v for v in out["violations"] if v["query"] == "grid:" + fname]) < 1:
                     out["violations"].append({"query": "grid:" + fname, "tags": [ta, tb], "a": str(ca), "b": str(cb), "why": why})
+    # ... and on the hard pairs (large terms, tiny divisors, 2^53 neighbours), every operator, rational operands
+    for fname in ARITH:
+        for ca, cb in HARD:
+            if fname == "modulo" and cb == 0:
+                continue
+            nspec += 1
+            try:
+                r, ok_type, val = real_result(E, ctx, fname, to_operand(RAT, ca), to_operand(RAT, cb))
+                bad = (not ok_type) or val != spec_concrete(fname, ca, cb)
+                why = "%s(%s, %s) = %r, exact value %s" % (fname, ca, cb, r, spec_concrete(fname, ca, cb))
+            except Exception as e:  # noqa
+                bad, why = True, "%s(%s, %s) raised %s" % (fname, ca, cb, type(e).__name__)
+            if bad and len([v for v in out["violations"] if v["query"] == "grid:" + fname]) < 1:
+                out["violations"].append({"query": "grid:" + fname, "tags": [RAT, RAT], "a": str(ca), "b": str(cb), "why": why})
     out["validated"] += nspec
     out["grid_pairs"] = nspec
     # ---- cvc5 cross-check of every query ----
